@@ -187,6 +187,9 @@ fn judge(c: &Case, o: &Obs, model_ans: &str) -> (Option<String>, Option<String>)
       }
     } else if c.style & 64 != 0 {
       // --quiet: nothing is printed, the exit status alone says it failed
+    } else if c.p != 0 && c.p <= u32::MAX as u64 && denied != 0 {
+      // the length itself is acceptable: what stands in the way is a lint, and the diagnostic must say which
+      prop = Some(format!("rejected because of a lint (violated-and-denied mask {denied}) but no note names it: {}", o.stderr.lines().last().unwrap_or("")));
     } else if !o.stderr.contains("error") {
       prop = Some("rejected without an error diagnostic".into());
     }
